@@ -58,6 +58,66 @@ static Instance build(unsigned seed, bool integer, int nvars, int nclauses, bool
     return in;
 }
 
+
+// a planted (hence satisfiable) random 3-SAT instance near the threshold: many conflicts above level 0 for a stop to land in
+static Instance buildBool(unsigned seed, int nvars) {
+    Instance in;
+    in.config = std::make_unique<SMTConfig>();
+    in.logic = std::make_unique<ArithLogic>(Logic_t::QF_LRA);
+    in.solver = std::make_unique<MainSolver>(*in.logic, *in.config, "threads harness");
+    ArithLogic & logic = *in.logic;
+    std::mt19937 rng(seed);
+    std::vector<PTRef> ps;
+    std::vector<bool> planted;
+    for (int i = 0; i < nvars; ++i) { ps.push_back(logic.mkBoolVar(("p" + std::to_string(i)).c_str())); planted.push_back(rng() % 2); }
+    int nclauses = nvars * 41 / 10;
+    for (int c = 0; c < nclauses; ++c) {
+        for (;;) {
+            vec<PTRef> lits; bool satisfied = false;
+            for (int j = 0; j < 3; ++j) {
+                int v = (int)(rng() % (unsigned)nvars); bool pos = rng() % 2;
+                if (pos == planted[v]) satisfied = true;
+                lits.push(pos ? ps[v] : logic.mkNot(ps[v]));
+            }
+            if (not satisfied) continue;
+            in.solver->addAssertion(logic.mkOr(std::move(lits)));
+            break;
+        }
+    }
+    return in;
+}
+
+// direct arithmetic on numbers beyond the machine word: a deterministic sequence of operations per seed, digest of all results
+static std::string numberDigest(unsigned seed, int steps) {
+    std::mt19937 g(seed);
+    auto bigInt = [&]() {
+        std::string d = std::to_string(1 + g() % 9);
+        int len = 20 + (int)(g() % 25);
+        for (int i = 0; i < len; ++i) d.push_back((char)('0' + g() % 10));
+        return FastRational(d.c_str(), 10);
+    };
+    std::string out;
+    FastRational acc(1);
+    for (int i = 0; i < steps; ++i) {
+        FastRational a = bigInt(), b = bigInt();
+        FastRational r;
+        switch (g() % 8) {
+            case 0: r = lcm(a, b); break;
+            case 1: r = gcd(a * b, b * bigInt()); break;
+            case 2: r = a / b + b / a; break;
+            case 3: r = (a / b).floor() - (b / a).ceil(); break;
+            case 4: r = fastrat_fdiv_q(a * b, b + 1); break;
+            case 5: r = lcm(a, b) / gcd(a, b); break;
+            case 6: r = a * b - b * a + lcm(b, a); break;
+            default: r = (a - b) * (a + b); break;
+        }
+        acc = acc / 3 + r;
+        out += r.get_str(); out.push_back(';');
+    }
+    out += acc.get_str();
+    return out;
+}
+
 static char const * name(sstat s) { return s == s_True ? "sat" : s == s_False ? "unsat" : s == s_Undef ? "unknown" : "error"; }
 
 int main(int argc, char ** argv) {
@@ -69,7 +129,19 @@ int main(int argc, char ** argv) {
     std::mt19937 rng(seed * 7919u + 13u);
     int mismatches = 0, unknowns = 0, answers = 0;
     for (int r = 0; r < rounds; ++r) {
-        if (mode == "par") {
+        if (mode == "num") {
+            std::vector<unsigned> seeds;
+            std::vector<std::string> ref, got(nthreads);
+            for (int t = 0; t < nthreads; ++t) seeds.push_back(rng());
+            for (int t = 0; t < nthreads; ++t) ref.push_back(numberDigest(seeds[t], 400));
+            std::vector<std::thread> ths;
+            for (int t = 0; t < nthreads; ++t) ths.emplace_back([&, t] { got[t] = numberDigest(seeds[t], 400); });
+            for (auto & th : ths) th.join();
+            for (int t = 0; t < nthreads; ++t) {
+                ++answers;
+                if (got[t] != ref[t]) { ++mismatches; std::printf("MISMATCH round %d thread %d seed %u: big-number arithmetic alone and concurrent differ\n", r, t, seeds[t]); }
+            }
+        } else if (mode == "par") {
             std::vector<unsigned> seeds;
             std::vector<sstat> ref, got(nthreads, s_Undef);
             for (int t = 0; t < nthreads; ++t) seeds.push_back(rng());
@@ -92,17 +164,18 @@ int main(int argc, char ** argv) {
         } else {
             unsigned s = rng();
             bool integer = (s % 3 == 0);
+            bool boolean = (r % 2 == 1);   // every other round: a propositional instance with many conflicts
             int nv = 6 + s % 5, nc = 40 + s % 60;
             sstat ref;
             long refUs;
             {
-                Instance in = build(s, integer, nv, nc, r % 2 == 0);
+                Instance in = boolean ? buildBool(s, 140 + (int)(s % 50)) : build(s, integer, nv, nc, r % 2 == 0);
                 auto t0 = std::chrono::steady_clock::now();
                 ref = in.solver->check();
                 refUs = std::chrono::duration_cast<std::chrono::microseconds>(std::chrono::steady_clock::now() - t0).count();
             }
             resetGlobalStop();
-            Instance in = build(s, integer, nv, nc, r % 2 == 0);
+            Instance in = boolean ? buildBool(s, 140 + (int)(s % 50)) : build(s, integer, nv, nc, r % 2 == 0);
             sstat got = s_Error;
             int delayUs = (int)(rng() % (unsigned)(refUs * 3 / 2 + 2));   // anywhere from before the start to after the end of the solving
             std::thread worker([&] { got = in.solver->check(); });
@@ -113,6 +186,12 @@ int main(int argc, char ** argv) {
             ++answers;
             if (got == s_Undef) ++unknowns;
             else if (got != ref) { ++mismatches; std::printf("MISMATCH round %d seed %u delay %dus: without stop %s, with stop %s\n", r, s, delayUs, name(ref), name(got)); }
+            // the same solver afterwards: the request must not have left a wrong verdict behind (a local stop request stays in
+            // force, so unknown is acceptable there; after a global request that was reset the answer must be the undisturbed one)
+            sstat later = in.solver->check();
+            ++answers;
+            if (later == s_Undef) { if (mode == "stop") ++unknowns; else { ++mismatches; std::printf("MISMATCH round %d seed %u: check after a reset global stop answers unknown\n", r, s); } }
+            else if (later != ref) { ++mismatches; std::printf("MISMATCH round %d seed %u delay %dus: without stop %s, check after the stopped one %s\n", r, s, delayUs, name(ref), name(later)); }
         }
     }
     std::printf("DONE mode=%s answers=%d unknown=%d mismatches=%d\n", mode.c_str(), answers, unknowns, mismatches);
